@@ -101,6 +101,169 @@ theorem C08_resume (mark e l : Int) (fb : Fallback) (hr : e ≤ mark + 1 ∧ mar
   rw [C07.C07_start]
   simp [C07.specStart, C07.committedOf, hne, hr]
 
+/-! ### whole histories of marks and commits against an abstract specification -/
+
+/-- what an application does to the marks, as the consumer sees it -/
+inductive Op
+  | mark (tp : TP) (off : Int)     -- `consume_message` / `consume_messageset` on a consumed partition
+  | commitOk                        -- `commit_consumed` that succeeded
+  | commitFailed                    -- `commit_consumed` that failed (error code, lost connection)
+
+/-- the model's side: the association list `consumed` -/
+def markStep (m : List (TP × Consumed)) (tp : TP) (off : Int) : List (TP × Consumed) :=
+  match assocGet m tp with
+  | none => assocSet m tp ⟨off, true⟩
+  | some o => if off > o.offset then assocSet m tp ⟨off, true⟩ else m
+
+def clearStep (m : List (TP × Consumed)) : List (TP × Consumed) := m.map fun x => (x.1, { x.2 with dirty := false })
+
+def stepM (m : List (TP × Consumed)) : Op → List (TP × Consumed)
+  | .mark tp off => markStep m tp off
+  | .commitOk => clearStep m
+  | .commitFailed => m
+
+/-- the specification: per partition the highest offset marked so far (if any) and whether it was raised since the last
+    commit that succeeded -/
+abbrev Spec := TP → Option (Int × Bool)
+
+def stepS (S : Spec) : Op → Spec
+  | .mark tp off => fun k => if k = tp then
+      (match S tp with
+       | none => some (off, true)
+       | some (o, d) => if off > o then some (off, true) else some (o, d))
+    else S k
+  | .commitOk => fun k => (S k).map fun x => (x.1, false)
+  | .commitFailed => S
+
+def abs (m : List (TP × Consumed)) : Spec := fun k => (assocGet m k).map fun c => (c.offset, c.dirty)
+
+theorem assocGet_set_other (m : List (TP × Consumed)) (k k' : TP) (v : Consumed) (h : k' ≠ k) :
+    assocGet (assocSet m k v) k' = assocGet m k' := by
+  induction m with
+  | nil => simp [assocSet, assocGet, List.find?, Ne.symm h]
+  | cons x xs ih =>
+    obtain ⟨a, b⟩ := x
+    by_cases ha : a = k
+    · subst ha
+      simp [assocSet, assocGet, List.find?, Ne.symm h]
+    · simp only [assocSet, ha, if_false]
+      by_cases hk : a = k'
+      · simp [assocGet, List.find?, hk]
+      · simp only [assocGet, List.find?, hk, decide_false] at ih ⊢
+        exact ih
+
+theorem assocGet_clear (m : List (TP × Consumed)) (k : TP) :
+    assocGet (clearStep m) k = (assocGet m k).map fun c => { c with dirty := false } := by
+  induction m with
+  | nil => rfl
+  | cons x xs ih =>
+    obtain ⟨a, b⟩ := x
+    by_cases ha : a = k
+    · simp [clearStep, assocGet, List.find?, ha]
+    · simp only [clearStep, List.map_cons, assocGet, List.find?, ha, decide_false] at ih ⊢
+      exact ih
+
+/-- **refinement, one step** -/
+theorem abs_step (m : List (TP × Consumed)) (op : Op) : abs (stepM m op) = stepS (abs m) op := by
+  funext k
+  cases op with
+  | mark tp off =>
+    simp only [stepM, stepS, abs, markStep]
+    by_cases hk : k = tp
+    · subst hk
+      simp only [if_true]
+      cases hg : assocGet m k with
+      | none => simp [assocGet_set_self]
+      | some o =>
+        simp only [Option.map_some]
+        by_cases hgt : off > o.offset
+        · simp [hgt, assocGet_set_self]
+        · simp [hgt, hg]
+    · simp only [hk, if_false]
+      cases hg : assocGet m tp with
+      | none => simp only []; rw [assocGet_set_other m tp k _ hk]
+      | some o =>
+        simp only []
+        by_cases hgt : off > o.offset
+        · simp only [hgt, if_true]; rw [assocGet_set_other m tp k _ hk]
+        · simp [hgt]
+  | commitOk =>
+    simp only [stepM, stepS, abs, assocGet_clear]
+    cases assocGet m k <;> simp
+  | commitFailed => rfl
+
+/-- **refinement over every history**: whatever sequence of marks, successful and failed commits an application produces,
+    the consumer's `consumed` table stands for exactly what the specification says -/
+theorem C08_history (ops : List Op) : ∀ (m : List (TP × Consumed)), abs (ops.foldl stepM m) = ops.foldl stepS (abs m) := by
+  induction ops with
+  | nil => intro m; rfl
+  | cons op r ih => intro m; simp only [List.foldl_cons]; rw [ih, abs_step]
+
+/-- on the specification: **a mark never moves backwards**, over any history -/
+theorem spec_monotone (ops : List Op) : ∀ (S : Spec) (k : TP) (o : Int) (d : Bool), S k = some (o, d) →
+    ∃ o' d', (ops.foldl stepS S) k = some (o', d') ∧ o ≤ o' := by
+  induction ops with
+  | nil => intro S k o d h; exact ⟨o, d, h, Int.le_refl _⟩
+  | cons op r ih =>
+    intro S k o d h
+    simp only [List.foldl_cons]
+    have h1 : ∃ o1 d1, stepS S op k = some (o1, d1) ∧ o ≤ o1 := by
+      cases op with
+      | mark tp off =>
+        simp only [stepS]
+        by_cases hk : k = tp
+        · subst hk
+          simp only [if_true, h]
+          by_cases hgt : off > o
+          · exact ⟨off, true, by simp [hgt], by omega⟩
+          · exact ⟨o, d, by simp [hgt], Int.le_refl _⟩
+        · exact ⟨o, d, by simp [hk, h], Int.le_refl _⟩
+      | commitOk => exact ⟨o, false, by simp [stepS, h], Int.le_refl _⟩
+      | commitFailed => exact ⟨o, d, h, Int.le_refl _⟩
+    obtain ⟨o1, d1, hs, hle⟩ := h1
+    obtain ⟨o2, d2, hs2, hle2⟩ := ih (stepS S op) k o1 d1 hs
+    exact ⟨o2, d2, hs2, by omega⟩
+
+/-- … and so it is for the consumer's table: **marks never move backwards over any history** -/
+theorem C08_history_monotone (ops : List Op) (m : List (TP × Consumed)) (k : TP) (c : Consumed) (h : assocGet m k = some c) :
+    ∃ c', assocGet (ops.foldl stepM m) k = some c' ∧ c.offset ≤ c'.offset := by
+  have hs : abs m k = some (c.offset, c.dirty) := by simp [abs, h]
+  obtain ⟨o', d', h1, hle⟩ := spec_monotone ops (abs m) k c.offset c.dirty hs
+  rw [← C08_history] at h1
+  simp only [abs] at h1
+  cases hg : assocGet (ops.foldl stepM m) k with
+  | none => simp [hg] at h1
+  | some c' =>
+    simp [hg] at h1
+    exact ⟨c', rfl, by omega⟩
+
+/-- a mark that the last operations did not raise is clean after a successful commit and stays clean under failed commits and
+    lower marks: **a partition whose highest mark did not change is not committed again** -/
+theorem spec_clean_after_commit (S : Spec) (k : TP) (o : Int) (d : Bool) (h : S k = some (o, d)) :
+    (stepS S .commitOk) k = some (o, false) := by simp [stepS, h]
+
+theorem spec_lower_mark_keeps_clean (S : Spec) (k : TP) (o off : Int) (h : S k = some (o, false)) (hle : off ≤ o) :
+    (stepS S (.mark k off)) k = some (o, false) := by
+  have : ¬ off > o := by omega
+  simp [stepS, h, this]
+
+/-- the model's operations are these steps: `consume_message` on a consumed partition -/
+theorem C08_consume_is_step {σ} (t : Bytes) (p off : Int) (w : WC σ) (tr : Nat) (fs : FetchState)
+    (htr : topicRef w.cons.assignments t = some tr) (hf : assocGet w.cons.fetchOffsets ⟨tr, p⟩ = some fs) :
+    (consumeMessage t p off w).1.cons.consumed = stepM w.cons.consumed (.mark ⟨tr, p⟩ off) ∧ (consumeMessage t p off w).2 = .ok () := by
+  unfold consumeMessage stepM markStep
+  simp only [M.bind_def, getCons, htr, hf, Option.isNone_some, Bool.false_eq_true, if_false]
+  cases hg : assocGet w.cons.consumed ⟨tr, p⟩ with
+  | none => simp [modCons, M.modify]
+  | some o =>
+    by_cases hgt : off > o.offset
+    · simp [hgt, modCons, M.modify]
+    · simp [hgt, M.pure_def]
+
+-- a history: mark 4, commit, a lower mark, a failed commit, mark 9: the table holds 9, raised since the last good commit
+example : (([Op.mark ⟨0, 0⟩ 4, .commitOk, .mark ⟨0, 0⟩ 2, .commitFailed, .mark ⟨0, 0⟩ 9].foldl stepM []) : List (TP × Consumed)) = [(⟨0, 0⟩, ⟨9, true⟩)] := by
+  decide
+
 /-! ### non-vacuity -/
 example : commitArgs ⟨{}, [103], .latest, 0, [([116], [])], [], [], [(⟨0, 0⟩, ⟨4, true⟩), (⟨0, 1⟩, ⟨9, false⟩)]⟩ = [([116], 0, 5)] := by
   simp [commitArgs, Consumer.topicName]
